@@ -326,3 +326,46 @@ Definition outcomes_of (s : mon) (w : N) : list wout :=
 (* PendingTxns(): the entries of sentTxs that are not flagged as cancelled *)
 Definition pending_hashes (s : mon) : list N :=
   filter (fun h => negb (memN h (flagged s))) (map fst (pending s)).
+
+(* ---- a complete check, as a predicate on the events that follow its snapshot ----------------- *)
+
+(* the checker while inside check(): how one event moves it (all other events leave it alone) *)
+Definition adv (c : N) (snap : list (N * N)) (q : list (N * N * reply)) (e : event) : checker :=
+  match e with
+  | BatchReply rs =>
+      match q with
+      | [] => let '(snap', q') := take_batch snap rs in finish c snap' q'
+      | _ => InFlight c snap q
+      end
+  | BatchFail => match q with [] => Idle | _ => InFlight c snap q end
+  | Proc _ => match q with _ :: q' => finish c snap q' | [] => InFlight c snap q end
+  | _ => InFlight c snap q
+  end.
+
+Definition head_is (n h : N) (q : list (N * N * reply)) : bool :=
+  match q with
+  | (n', h', _) :: _ => (n' =? n) && (h' =? h)
+  | [] => false
+  end.
+Definition is_proc (e : event) : bool := match e with Proc _ => true | _ => false end.
+
+(* [drive n h c snap q mid]: starting inside a check with snapshot rest [snap] and queue [q], the
+   events [mid] keep the check running -- no failed batch, the check does not end -- and never
+   process the element of (n, h).  The result is where the check stands after [mid]. *)
+Fixpoint drive (n h c : N) (snap : list (N * N)) (q : list (N * N * reply)) (mid : list event)
+  : option (list (N * N) * list (N * N * reply)) :=
+  match mid with
+  | [] => Some (snap, q)
+  | e :: rest =>
+      if is_proc e && head_is n h q then None
+      else match adv c snap q e with
+           | InFlight _ snap' q' => drive n h c snap' q' rest
+           | _ => None
+           end
+  end.
+
+(* The events [mid] after the snapshot [snap] of a check with confirmed nonce c form a complete
+   check for transaction (n, h) with the node's answer r: batch replies and element steps, in any
+   interleaving with other events, bring the element (n, h, r) to the head of the queue. *)
+Definition complete_check (n h c : N) (snap : list (N * N)) (mid : list event) (r : reply) : Prop :=
+  exists snap' q', drive n h c snap [] mid = Some (snap', (n, h, r) :: q').
